@@ -2547,6 +2547,9 @@ type indexTagSets interface {
 }
 
 func (e *Engine) createCallIterator(ctx context.Context, measurement string, call *influxql.Call, opt query.IteratorOptions) ([]query.Iterator, error) {
+	if len(call.Args) == 0 {
+		return nil, fmt.Errorf("invalid number of arguments for %s, expected at least 1, got 0", call.Name)
+	}
 	ref, _ := call.Args[0].(*influxql.VarRef)
 
 	if exists, err := e.index.MeasurementExists([]byte(measurement)); err != nil {
